@@ -1,0 +1,41 @@
+//go:build verif
+
+package main
+
+// Contracts for govc, the contract verifier under /verif (see /verif/DESIGN.md).
+// Compiled only with -tags verif; comment-only.
+
+//@ func warningf(format, v)
+//@   assumes#count $warnings == old($warnings) + 1
+//@   modifies $warnings
+
+//@ func parseRecipient(arg) (r, err)
+//@   call plugin.NewRecipient#1 requires arg0 == arg && hasprefix(arg, "age1")                                      [C17]
+//@   call age.ParseX25519Recipient#1 requires arg0 == arg                                                           [C17 C18]
+//@   call agessh.ParseRecipient#1 requires arg0 == arg                                                              [C17 C18]
+//@   ensures#nilxor err == nil ==> r != nil                                                                         [C14 C18]
+
+//@ func parseIdentity(s) (id, err)
+//@   call plugin.NewIdentity#1 requires arg0 == s && hasprefix(s, "AGE-PLUGIN-")                                    [C17]
+//@   call age.ParseX25519Identity#1 requires arg0 == s                                                              [C17 C18]
+//@   ensures#nilxor err == nil ==> id != nil                                                                        [C14 C18]
+
+//@ func parseIdentities(f) (ids, err)
+//@   requires f != nil
+//@   loop 1 invariant scanner != nil && n == scanner.$ln && n >= 0
+//@   loop 1 invariant#count len(ids) == keycount(id(scanner), n)                                                    [C18]
+//@   loop 1 invariant#nonnil forall j in 0..len(ids) :: ids[j] != nil                                              [C18]
+//@   call parseIdentity#0 requires arg0 == scanner.$cur && iskeyline(arg0)                                          [C18]
+//@   call fmt.Errorf#1 requires arg0 == "error at line %d: %v" && unboxint(arg1[0]) == n && n == scanner.$ln        [C18]
+//@   ensures#all err == nil ==> len(ids) == keycount(id(scanner), scanner.$ln) && len(ids) >= 1 && (forall j in 0..len(ids) :: ids[j] != nil)   [C18]
+//@   ensures#nil err != nil ==> ids == nil                                                                         [C14 C18]
+
+//@ func parseRecipientsFile(name) (recs, err)
+//@   loop 1 invariant scanner != nil && n == scanner.$ln && n >= 0
+//@   loop 1 invariant#count len(recs) + ($warnings - old($warnings)) == keycount(id(scanner), n)                     [C18]
+//@   loop 1 invariant#nonnil forall j in 0..len(recs) :: recs[j] != nil                                            [C18]
+//@   call parseRecipient#0 requires arg0 == scanner.$cur && iskeyline(arg0)                                         [C18]
+//@   call fmt.Errorf#4 requires arg0 == "%q: malformed recipient at line %d" && len(arg1) == 2 && unboxstr(arg1[0]) == name && unboxint(arg1[1]) == n && n == scanner.$ln   [C18]
+//@   call fmt.Errorf#3 requires arg0 == "%q: line %d is too long" && len(arg1) == 2 && unboxstr(arg1[0]) == name && unboxint(arg1[1]) == n   [C18]
+//@   ensures#all err == nil ==> len(recs) + ($warnings - old($warnings)) == keycount(id(scanner), scanner.$ln) && len(recs) >= 1   [C18]
+//@   ensures#nil err != nil ==> recs == nil                                                                        [C14 C18]
